@@ -31,7 +31,7 @@ SUBREAPER = _libc.prctl(36, 1, 0, 0, 0) == 0  # PR_SET_CHILD_SUBREAPER
 
 BASE_MTIME = 1_600_000_000
 IO_TIMEOUT = 20.0
-BARRIER_TIMEOUT = 60
+BARRIER_TIMEOUT = 30
 
 
 # ---------------------------------------------------------------------------------------------
@@ -190,7 +190,7 @@ def client_main(argv: list[str]) -> dict[str, Any]:
     return {"rc": rc, "out": out.getvalue(), "err": err.getvalue()}
 
 
-def barrier(status_file: str) -> dict[str, Any]:
+def barrier(status_file: str, timeout: int = 0) -> dict[str, Any]:
     """One well-formed `status` request through the repository's client.request with a long timeout."""
     from mypy.dmypy import client
     from mypy.ipc import BadStatus
@@ -198,7 +198,7 @@ def barrier(status_file: str) -> dict[str, Any]:
     _install_recorder()
     try:
         with redirect_stdout(io.StringIO()), redirect_stderr(io.StringIO()):
-            r = client.request(status_file, "status", timeout=BARRIER_TIMEOUT, fswatcher_dump_file=None)
+            r = client.request(status_file, "status", timeout=timeout or BARRIER_TIMEOUT, fswatcher_dump_file=None)
     except BadStatus as e:
         return {"error": f"BadStatus: {e.args[0]}"}
     except Exception as e:  # e.g. UnicodeDecodeError / ValueError escaping request()
@@ -381,7 +381,7 @@ def probe(d: Daemon, mode: str, exp: dict[str, Any], status_keys: list[str], pid
     p: dict[str, Any] = {}
     attempts = 0
     while True:
-        b = barrier(d.status_file)
+        b = barrier(d.status_file, BARRIER_TIMEOUT if attempts == 0 else 15)
         if "error" not in b:
             break
         if "platform" in b or "python_version" in b:
@@ -392,10 +392,11 @@ def probe(d: Daemon, mode: str, exp: dict[str, Any], status_keys: list[str], pid
             break
         p["barrier_error"] = str(b["error"])[:300]
         p.setdefault("barrier_failures", []).append(p["barrier_error"])
-        if d.wait_exit(10 if attempts else 5):
+        if d.wait_exit(5):
             break
         attempts += 1
-        if attempts >= 3:
+        if attempts >= 2:
+            # alive, and two well-formed status requests in a row (30 s and 15 s watchdogs) were not served
             p["unresponsive"] = True
             break
     if d.exited():
@@ -557,6 +558,10 @@ def run_sequence(seq: dict[str, Any], expected_table: dict[str, dict[str, Any]],
                 faults_survived = 0
             else:
                 faults_survived += 1
+        if strip_faults and not d.exited():
+            ck = _short(client_main(["--status-file", d.status_file, "check", *F.targets(cache_mode)]))
+            ck.update(mode="check", equal=compare_with_expected(ck, exp_of(v), verbose))
+            events.append({"i": len(seq["elements"]), "op": "twin-final", "version": list(v), "check_cmd": ck})
         if cli_final and not d.exited() and not strip_faults:
             # the same probes once more through fresh client processes (process boundary included)
             st = common.run_cli(["--status-file", d.status_file, "status"], cwd=root, env=d.env, timeout=120, module="mypy.dmypy")
